@@ -10,11 +10,11 @@ CLAIMS = {
  "C01": ("Theorems (all tables, all byte strings): Scan meets the declarative ScanSpec (skip complete ignored lexemes, follow the automaton while a transition exists, return the last state's token with exactly that text, INVALID swallows the offending rune, EOF for ever) and ScanSpec determines the result; VERIFIED equivalence checker: equivCheck M R = true implies identical token streams (types, literals, positions) of the generated automaton and the reference automaton on EVERY byte string (C01_equivCheck_sound). The checker is evaluated for every grammar the run visits, with M = the Lean model of gocc's item-set construction (tied to gocc by exact equality of every compiled table, state numbering included) and R = the macro-expanded reference semantics ('.' as fallback, string literals first, then declaration order). Token streams of compiled lexers are additionally compared with the reference directly. Known finding D1 (regdef sharing): grammars on which the checker rejects and impl = model.",
          "'For all grammars' is covered per visited grammar (D1 makes the unrestricted statement false); the reference needs acyclic regular definitions; the reference automaton construction itself (refDfa) is the executable specification.",
          "Lean 4 proof (loop invariant, spec uniqueness, verified bisimulation checker) + exact table correspondence + reference-semantics oracle"),
- "C02": ("Verified validators: theorems C02_accept_sound (tables passing safe/safeEnds: accept implies sentence) and C02_sentence_accepted (tables passing firstOk/complete: every sentence is accepted with enough fuel), together C02_accept_iff_sentence, for EVERY token sequence. Both validators are evaluated on every table gocc generates in the run (certificates = the model's LR(1) item sets and FIRST sets), so for each visited conflict-free grammar acceptance = membership for all inputs. Tables tied to the Lean LR(1) generator model by exact equality; Earley recogniser as an independent oracle; verdicts also checked on reused parser objects.",
-         "'For all grammars' is covered by validating each visited grammar, not by a theorem about the generator; termination on non-sentences is observed (watchdog + fuel), not proved.",
+ "C02": ("Verified validators: theorems C02_accept_sound (tables passing safe/safeEnds: accept implies sentence) and C02_sentence_accepted (tables passing firstOk/complete: every sentence is accepted with enough fuel), together C02_accept_iff_sentence, for EVERY token sequence. Both validators are evaluated on every table gocc generates in the run (certificates = the model's LR(1) item sets and FIRST sets), so for each visited conflict-free grammar acceptance = membership for all inputs. GENERATOR LEVEL, for EVERY grammar: the tables computed by the generator model genParser pass safe/safeEnds (C02_genParser_safe; side condition NamesOk: reserved spellings gocc's scanner cannot produce; states <= 4096), hence accept implies sentence for every grammar without a validator run (C02_generated_parser_sound); if moreover the generator records no conflict the tables pass firstOk/complete (C02_genParser_complete; extra side condition CompleteNamesOk about the reserved spellings INVALID and empty, each clause shown necessary by a kernel-evaluated witness grammar), so for EVERY conflict-free grammar without recovery states and every token sequence: accepted iff sentence (C02_generated_accept_iff_sentence). Tables tied to the Lean LR(1) generator model by exact equality; Earley recogniser as an independent oracle; verdicts also checked on reused parser objects.",
+         "The generator-level theorems are about the Lean generator model (tied to gocc by exact table equality on the grammars of the run) and assume the model's fuel of 4096 states is not reached; termination on non-sentences is observed (watchdog + fuel), not proved.",
          "Lean 4 verified table validators (soundness: stack invariant carrying parse trees; completeness: induction on derivations) + exact table correspondence + Earley oracle"),
- "C03": ("Theorems over validated tables, all inputs: the accepted result and the action-call log equal the post-order evaluation (evalT) of a well-formed parse tree whose yield is the input; a failing k-th action stops Parse with that action's error after exactly k calls and its log is the k-prefix of the failure-free run. Compiled parsers with logging actions tied to the model; table-free tree evaluator as oracle.",
-         "Action texts are exercised through five harness shapes ($n, $Tn, $Context, X, default/empty); attribute aliasing through popN is outside the model.",
+ "C03": ("Theorems over validated tables — and, through C02_genParser_safe, over the generator model's tables for EVERY grammar (C03_generated_result_is_tree_eval, C03_generated_failing_action_is_reported) — all inputs: the accepted result and the action-call log equal the post-order evaluation (evalT) of a well-formed parse tree whose yield is the input; a failing k-th action stops Parse with that action's error after exactly k calls and its log is the k-prefix of the failure-free run. Compiled parsers with logging actions tied to the model; table-free tree evaluator as oracle.",
+         "Action texts are exercised through seven harness shapes ($n incl. two-digit $10, $Tn, $Context, X, printf verbs next to $n, default/empty); attribute aliasing through popN is outside the model.",
          "Lean 4 proof (same stack invariant, lock-step simulation) + compiled-parser correspondence + tree-evaluation oracle"),
  "C04": ("Theorems (all action lists): the fold records a conflict iff two different non-error actions compete; it panics iff accept competes with something else or two shifts differ. Announced count and exit status of the real binary with/without -a compared with the conflicting states of the model's canonical LR(1) collection (tables equal exactly).",
          "Canonicity of the item-set collection itself is tied by exact table equality with the model, not proved against the textbook definition.",
@@ -22,8 +22,8 @@ CLAIMS = {
  "C05": ("Theorems (all action lists, all orders): fold result = shift if proposed else smallest production; order independent; no competition leaves the entry unchanged; setAction is that fold. Every entry of every generated table compared with the rule stated outright; run-level behaviour tied to the Parse model.",
          "Run-level corollary (verdict and reductions of the resolved machine) is by correspondence with the model running the same table.",
          "Lean 4 proof (fold invariant, permutation invariance) + per-entry oracle + correspondence"),
- "C06": ("Verified validators, all token sequences: on tables passing firstOk/complete/validItems (LR(1) item validity with rank certificates) a syntax error reports index i with w[:i] viable, the reported token is w[i] (or end of input) and cannot continue any sentence, the expected list is EXACTLY the viable continuations in increasing type order, and the final configuration equals that of the run on w[:i]+INVALID, i.e. nothing was reduced with the offending look-ahead (C06_error_token_is_first_offending, C06_expected_set_exact, C06_no_reduction_on_bad_lookahead). The validators are evaluated on every conflict-free, error-free, productive grammar the run visits (certificates from the model's item sets; FIRST/nullable/productivity ranks computed by the driver). Earley prefix oracle and INVALID-look-ahead baseline as independent checks; tables tied to the generator model exactly; histories on reused parsers.",
-         "'For all grammars' is covered by validating each visited grammar; token identity (the very scanner object) is checked behaviourally.",
+ "C06": ("Verified validators, all token sequences: on tables passing firstOk/complete/validItems (LR(1) item validity with rank certificates) a syntax error reports index i with w[:i] viable, the reported token is w[i] (or end of input) and cannot continue any sentence, the expected list is EXACTLY the viable continuations in increasing type order, and the final configuration equals that of the run on w[:i]+INVALID, i.e. nothing was reduced with the offending look-ahead (C06_error_token_is_first_offending, C06_expected_set_exact, C06_no_reduction_on_bad_lookahead). GENERATOR LEVEL: for EVERY grammar whose non-terminals are productive the generator model's tables pass validItems with the certificate vcertOf G (total, fuel adequacy proved by pigeonhole; conflicts allowed) — C06_genParser_validItems — and with C02_genParser_complete the three C06 theorems hold for the generated tables of every conflict-free, error-free, reduced grammar (C06_generated_error_token_is_first_offending, C06_generated_expected_set_exact, C06_generated_no_reduction_on_bad_lookahead). The validators are additionally evaluated on every such grammar the run visits (same certificates), which ties them to gocc's actual tables. Earley prefix oracle and INVALID-look-ahead baseline as independent checks; tables tied to the generator model exactly; histories on reused parsers.",
+         "Generator-level theorems are about the Lean generator model (exact table equality with gocc on the grammars of the run; fuel of 4096 states assumed not reached); token identity (the very scanner object) is checked behaviourally.",
          "Lean 4 verified validators (item validity, lock-step determinism) + Earley prefix oracle + exact table correspondence"),
  "C07": ("Theorems for ALL tables/inputs: one call of Error equals the declarative RecoverSpec (topmost recovery state, error attribute = offending token + discarded attributes oldest first + expected set, resume at the first acceptable token starting with the offending one, give up at end of input or without a recovery state) and the spec is unique; under RecWF no recovery panic is reachable; shifted tokens reach the result at most once and in input order (TokInv preserved by every step, any tables); a run in which no lookup fails is identical with and without recovery states (inertness). RecWF/NoShiftEOF are evaluated on every generated table of the run. Recovery model tied exactly to compiled parsers on erroneous inputs; oracles: panic/loop freedom on conflict-free grammars, error-free twin grammar, token order. Panics D7/D7b found and fixed.",
          "Termination of a recovering parse is observed (watchdog/fuel), not proved; 'behaves as the grammar without error alternatives' is the inertness theorem at table level plus the twin-grammar oracle.",
@@ -46,8 +46,8 @@ CLAIMS = {
  "C13": ("Lean model of gocc's hand-written scanner (every function of scanner.go) and theorems for every Unicode oracle: the (type, literal) token stream of a rendering is independent of the white-space/comment separators (C13_whitespace_invariant, C13_comment_is_whitespace), positions follow the layout; character literal value is spelling independent (C20_litToRune). Scanner model tied to the real scanner on respelled grammars and random byte strings; the real binary on four kinds of respelling must produce byte-identical packages.",
          "ScansAs (a spelling scans as one token when followed by white space) is discharged for ASCII spellings; 'the generator is a function of the token stream' is checked behaviourally (byte-identical output), not proved.",
          "Lean 4 proof over a scanner model + scanner correspondence + byte comparison of generated packages"),
- "C14": ("Theorems (regenerated tables): gocc's own parser accepts exactly L(spec/gocc2.ebnf) and has no recovery state, so nothing is skipped (C15_accepts_iff_sentence, C15_no_recovery_states). The real binary on token-level mutants, undefined references, duplicated definitions, emptied alternatives and lexically broken files: every file that is ill-formed by the oracle (scanner error / ILLEGAL token / token sequence outside L(ebnf) by Earley / semantic by construction) must exit non-zero. Defects D6 and D10 found and fixed.",
-         "The semantic checks (duplicates, undefined symbols, empty alternatives) are judged by construction of the mutant, not by a Lean model of internal/ast.",
+ "C14": ("Theorems (regenerated tables): gocc's own parser accepts exactly L(spec/gocc2.ebnf) and has no recovery state, so nothing is skipped (C15_accepts_iff_sentence, C15_no_recovery_states). The real binary on token-level mutants, undefined references, duplicated definitions, emptied alternatives and lexically broken files: every file that is ill-formed by the oracle (scanner error / ILLEGAL token / token sequence outside L(ebnf) by Earley / semantic by construction) must exit non-zero. Semantic half: semCheck, a Lean model of NewLexProdMap/NewLexPart/consistent/UndefinedRegDef, is proved to accept exactly the grammars satisfying the property's clauses (C14_semCheck_iff: no duplicate definition, no empty alternative, every production name and regular definition defined) and every error names a culprit (C14_semCheck_culprit); value-level mutants (reference renaming, duplication of each kind, nested / unused-definition undefined references, harmless twins) are judged by the model and gocc's status and error category must agree. Defects D6, D10 and D12 found and fixed.",
+         "Imports of the lexical part are a parameter of the model that the generator of the check leaves empty; the empty-alternative clause is reached only through the syntax level (the ebnf has no empty alternative).",
          "Lean 4 theorems on regenerated front-end tables + mutation run of the real binary with an Earley/semantic oracle"),
  "C15": ("Regenerated on every run: tables.go (dumped from the compiled current tree) and spec/gocc2.ebnf (independent reader) are translated to Lean data; the kernel evaluates both verified validators on them by `decide`: C15_accepts_iff_sentence — for ALL token sequences the front-end parser accepts iff the sequence is a sentence of the ebnf; production table = ebnf productions (head, length; bodies through the stack discipline). A changed table entry or production breaks a proof obligation; the check then searches (Earley vs real parser, one long-lived parser object) for a concrete failing input.",
          "The front-end Parse loop is an older template than the modelled one: tied by the differential run (verdict and number of Scan calls).",
